@@ -349,6 +349,19 @@ void run_real_chunked(const Plan &p, int count) {
     }
 }
 
+// thorough tier: larger arrays so that big epsilons produce several segments and several levels (order-only checks)
+template<typename K, size_t Eps, size_t EpsRec, typename F>
+void run_big(const Plan &p, int count) {
+    if (p.tier == "quick") return;
+    Rng rng(p.seed ^ 0xb16 ^ (Eps * 31 + sizeof(K)));
+    const std::vector<std::string> kinds = {"runs_uniform", "steps", "random", "collinear"};
+    for (int i = 0; i < count; ++i) {
+        size_t n = 60000 + rng.below(140000);
+        ExecPlan pl{kinds[(size_t) i % kinds.size()], n, 3 + (i % 2), 0, false, {"big", kinds[(size_t) i % kinds.size()]}, rng.next(), {}};
+        run_exec<K, Eps, EpsRec, F>(pl);
+    }
+}
+
 int main(int argc, char **argv) {
     Args a(argc, argv);
     install_crash_handlers();
@@ -358,6 +371,8 @@ int main(int argc, char **argv) {
     Plan p{a.get("tier", "quick"), (uint64_t) a.geti("seed", 1)};
     // the instantiated configurations are split in parts so that they compile in parallel
 #if PART == 0
+    run_big<uint32_t, 64, 4, float>(p, 2);
+    run_big<uint32_t, 1024, 1024, float>(p, 2);
     run_real_chunked<uint32_t, 16, 4, float>(p, p.tier == "quick" ? 1 : 6);
     run_real_chunked<uint32_t, 1, 1, float>(p, p.tier == "quick" ? 1 : 6);
     run_config<uint32_t, 1, 0, float>(p, 2);
@@ -373,6 +388,8 @@ int main(int argc, char **argv) {
     run_config<uint16_t, 1, 1, float>(p, 1);
     run_config<uint16_t, 16, 4, float>(p, 0);
 #elif PART == 1
+    run_big<uint64_t, 16, 4, float>(p, 2);
+    run_big<uint64_t, 2, 64, float>(p, 1);
     run_real_chunked<uint64_t, 4, 4, float>(p, p.tier == "quick" ? 1 : 6);
     run_config<uint64_t, 1, 0, float>(p, 1);
     run_config<uint64_t, 2, 1, float>(p, 1);
@@ -394,6 +411,8 @@ int main(int argc, char **argv) {
             if (i % 2) run_exec<double, 2, 1, float>(pl); else run_exec<double, 1, 1, float>(pl);
         }
     }
+    run_big<int64_t, 128, 4, float>(p, 2);
+    run_big<double, 16, 4, float>(p, 1);
     run_real_chunked<int64_t, 64, 4, float>(p, p.tier == "quick" ? 1 : 6);
     run_config<int64_t, 1, 1, float>(p, 2);
     run_config<int64_t, 3, 2, float>(p, 1);
